@@ -26,3 +26,5 @@ import RosedVerif.Model.GenEq.Paras
 import RosedVerif.Model.GenEq.WrapOpts
 import RosedVerif.Model.GenEq.IndentOpts
 import RosedVerif.Model.GenEq.InsertTable
+import RosedVerif.Model.GenEq.AlignOpts
+import RosedVerif.Model.GenEq.JustifyOpts
